@@ -15,6 +15,7 @@ from . import core
 from .core import SV, SC, SI, SB, zr, zc, Inconclusive, PathAbort
 
 
+TRACE = bool(__import__('os').environ.get('SYMX_TRACE'))
 SOM_BLOWUP = 10 ** 8
 
 
@@ -256,6 +257,9 @@ class SymCtx(_Base):
         self.eq(fx, [0] * len(fx), label)
 
     def _sample(self, label, verdict, n):
+        if TRACE:
+            import sys, time
+            print(f'[trace {time.time() % 1000:7.2f}] {str(verdict)[:20]:20s} n={n} {label}', file=sys.stderr, flush=True)
         if len(self.samples) < 6:
             self.samples.append({'obligation': label, 'elements': n, 'verdict': verdict,
                                  'path_decisions': len(core.ENG.decisions[:core.ENG.pos])})
@@ -289,7 +293,7 @@ class FloatCtx(_Base):
         a, b = (-2.0 if lo is None else lo), (2.0 if hi is None else hi)
         if integer:
             return [float(self.rng.randint(int(a), int(b))) for _ in range(n)]
-        return [a + (b - a) * self.rng.randint(1, 63) / 64.0 for _ in range(n)]
+        return [a + (b - a) * (2 * self.rng.randint(0, 31) + 1) / 64.0 for _ in range(n)]      # never exactly zero for symmetric ranges
 
     def data(self, name, n, dtype='real', nonneg=False):
         if dtype == 'complex':
